@@ -542,6 +542,10 @@ func runSched(col *Collector, focus, tier string, seed int64) {
 		for _, k := range []int{2, 4, 8} {
 			includedInParallelCase(col, k, 3, reps)
 		}
+		for _, k := range []int{2, 3, 5} {
+			fanInStressCase(col, k, reps, false)
+			fanInStressCase(col, k, reps/2, true)
+		}
 	}
 	parallel(len(plans), 16, func(i int) {
 		t := tags[i]
@@ -779,6 +783,93 @@ func includedInParallelCase(col *Collector, includers, inner, reps int) {
 			if c := r.n[fmt.Sprintf("x%d", i)]; c != 1 && bad == "" {
 				bad = fmt.Sprintf("repetition %d: inner stage x%d was executed %d times", rep, i, c)
 			}
+		}
+		r.mu.Unlock()
+	}
+	cs.Impl = "once=" + fmt.Sprint(bad == "")
+	if bad != "" && cs.Fail == "" {
+		cs.Fail, cs.Sig = bad, "c03-twice"
+	}
+	col.Add(cs)
+}
+
+// a runner whose tasks named p* wait for each other (all k of them inside Run) and then return at the same instant;
+// every other task returns at once; executions are counted per task name
+type barrierRunner struct {
+	mu      sync.Mutex
+	n       map[string]int
+	k       int
+	waiting int
+	release chan struct{}
+}
+
+func (r *barrierRunner) Run(t *task.Task) error {
+	r.mu.Lock()
+	r.n[t.Name]++
+	if !strings.HasPrefix(t.Name, "p") {
+		r.mu.Unlock()
+		return nil
+	}
+	r.waiting++
+	ch := r.release
+	if r.waiting == r.k {
+		close(r.release)
+	}
+	r.mu.Unlock()
+	select {
+	case <-ch:
+	case <-time.After(5 * time.Second):
+	}
+	return nil
+}
+func (r *barrierRunner) Cancel() {}
+func (r *barrierRunner) Finish() {}
+
+// fan-in: k stages with no dependency between them finish at the same instant, a stage x depends on all of them (and y
+// on x): whoever notices that x has become eligible - the loop, a goroutine finishing a parent - x is executed once.
+// As a plain pipeline and included by three stages of an outer one.
+func fanInStressCase(col *Collector, k, reps int, included bool) {
+	cs := Case{Replay: fmt.Sprintf("fan-in: %d parents released at the same instant, x depends on all of them, y on x; %d repetitions; pipeline included by three stages: %v", k, reps, included),
+		Tags: []string{"fan-in-stress"}, NonTrivial: true}
+	bad := ""
+	for rep := 0; rep < reps && bad == "" && cs.Fail == ""; rep++ {
+		var ps []*scheduler.Stage
+		var deps []string
+		for i := 0; i < k; i++ {
+			t := task.NewTask()
+			t.Name = fmt.Sprintf("p%d", i)
+			ps = append(ps, &scheduler.Stage{Name: t.Name, Task: t})
+			deps = append(deps, t.Name)
+		}
+		tx, ty := task.NewTask(), task.NewTask()
+		tx.Name, ty.Name = "x", "y"
+		ps = append(ps, &scheduler.Stage{Name: "x", Task: tx, DependsOn: deps}, &scheduler.Stage{Name: "y", Task: ty, DependsOn: []string{"x"}})
+		g, err := scheduler.NewExecutionGraph(ps...)
+		if err == nil && included {
+			g, err = scheduler.NewExecutionGraph(&scheduler.Stage{Name: "i0", Pipeline: g}, &scheduler.Stage{Name: "i1", Pipeline: g}, &scheduler.Stage{Name: "i2", Pipeline: g})
+		}
+		if err != nil {
+			cs.Fail, cs.Sig = err.Error(), "sched-setup"
+			break
+		}
+		r := &barrierRunner{n: map[string]int{}, k: k, release: make(chan struct{})}
+		sd := scheduler.NewScheduler(r)
+		sd.VerifSetPause(200 * time.Microsecond)
+		done := make(chan error, 1)
+		go func() { done <- sd.Schedule(g) }()
+		select {
+		case <-done:
+		case <-time.After(20 * time.Second):
+			cs.Fail, cs.Sig = "Schedule did not return within 20s", "c03-no-return"
+		}
+		r.mu.Lock()
+		for name, c := range r.n {
+			if c != 1 && bad == "" {
+				bad = fmt.Sprintf("repetition %d: stage %s was executed %d times", rep, name, c)
+			}
+		}
+		if len(r.n) != k+2 && bad == "" && cs.Fail == "" {
+			bad = fmt.Sprintf("repetition %d: %d of the %d stages were executed", rep, len(r.n), k+2)
 		}
 		r.mu.Unlock()
 	}
